@@ -361,9 +361,13 @@ fn flate_lzw_filter(
                     for j in 1 .. 1 + bytes_per_pixel {
                         row_data[j] += prev_row[j] / Wrapping(2);
                     }
-                    for j in bytes_per_pixel .. row_length {
-                        let incr = (row_data[j - bytes_per_pixel] + prev_row[j]) / Wrapping(2);
-                        row_data[j] += incr
+                    // The bytes of the first pixel have no left
+                    // neighbour; for the others, the average is taken
+                    // of the 9-bit sum.
+                    for j in 1 + bytes_per_pixel .. row_length {
+                        let sum =
+                            u16::from(row_data[j - bytes_per_pixel].0) + u16::from(prev_row[j].0);
+                        row_data[j] += Wrapping((sum / 2) as u8)
                     }
                 },
                 14 => {
